@@ -292,7 +292,7 @@ fn run_sequential(case: &Case, ctx: &mut Ctx) -> Result<(), Fail> {
     Ok(())
 }
 
-fn case_seq(bytes: &[u8], _s: &[u8], ctx: &mut Ctx) -> Result<(), Fail> {
+pub fn case_seq(bytes: &[u8], _s: &[u8], ctx: &mut Ctx) -> Result<(), Fail> {
     let mut src = Source::new(bytes);
     let case = decode(&mut src);
     ctx.case(&case);
@@ -381,7 +381,7 @@ fn linearizable(ops: &[Done]) -> bool {
     go(ops, &mut vec![false; ops.len()], &mut [None, None], &mut vec![])
 }
 
-fn case_conc(bytes: &[u8], sched_bytes: &[u8], ctx: &mut Ctx) -> Result<(), Fail> {
+pub fn case_conc(bytes: &[u8], sched_bytes: &[u8], ctx: &mut Ctx) -> Result<(), Fail> {
     let mut src = Source::new(bytes);
     let kind = src.below(3) as u8;
     let nt = 2 + src.below(2);
